@@ -695,7 +695,10 @@ def snap(o, depth=0, seen=None):
         return ["set"] + sorted(json.dumps(snap(x, depth + 1, seen)) for x in o)
     d = getattr(o, "__dict__", None)
     if isinstance(d, dict):
-        return [type(o).__name__] + [[k, snap(v, depth + 1, seen)] for k, v in d.items()]
+        # plain data kept on the class (counters, shared containers) is state every instance sees
+        shared = [[k, snap(v, depth + 1, seen)] for k, v in vars(type(o)).items()
+                  if not k.startswith("__") and isinstance(v, (int, float, str, bytes, list, dict, set, tuple, type(None)))]
+        return [type(o).__name__] + [[k, snap(v, depth + 1, seen)] for k, v in d.items()] + ([["<class>", shared]] if shared else [])
     return repr(type(o))
 
 def instances(o, out, seen, depth=0):
